@@ -1013,17 +1013,20 @@ fn parse_punctuated_nested_meta(
                 }
 
                 let attr_name = path.get_ident().unwrap().to_string();
-                match (wrapper_name, attr_name.as_str()) {
-                    (None, "ignore") => info.enabled = Some(false),
-                    (None, "forward") => info.forward = Some(true),
-                    (Some("not"), "forward") => info.forward = Some(false),
-                    (None, "owned") => info.owned = Some(true),
-                    (None, "ref") => info.ref_ = Some(true),
-                    (None, "ref_mut") => info.ref_mut = Some(true),
-                    (None, "source") => info.source = Some(true),
-                    (Some("not"), "source") => info.source = Some(false),
-                    (None, "backtrace") => info.backtrace = Some(true),
-                    (Some("not"), "backtrace") => info.backtrace = Some(false),
+                let prev = match (wrapper_name, attr_name.as_str()) {
+                    (None, "ignore") => {
+                        info.enabled = Some(false);
+                        None
+                    }
+                    (None, "forward") => info.forward.replace(true),
+                    (Some("not"), "forward") => info.forward.replace(false),
+                    (None, "owned") => info.owned.replace(true),
+                    (None, "ref") => info.ref_.replace(true),
+                    (None, "ref_mut") => info.ref_mut.replace(true),
+                    (None, "source") => info.source.replace(true),
+                    (Some("not"), "source") => info.source.replace(false),
+                    (None, "backtrace") => info.backtrace.replace(true),
+                    (Some("not"), "backtrace") => info.backtrace.replace(false),
                     _ => {
                         return Err(Error::new(
                             path.span(),
@@ -1033,6 +1036,15 @@ fn parse_punctuated_nested_meta(
                             ),
                         ))
                     }
+                };
+                if prev.is_some() {
+                    return Err(Error::new(
+                        path.span(),
+                        format!(
+                            "Attribute parameter `{attr_name}` is specified more \
+                             than once or contradicts another parameter",
+                        ),
+                    ));
                 }
             }
         }
